@@ -3417,7 +3417,10 @@ impl Cuesheet {
         let multiplier = u64::from(channel_count) * u64::from(bits_per_sample.div_ceil(8));
 
         self.track_sample_ranges()
-            .map(move |std::ops::Range { start, end }| start * multiplier..end * multiplier)
+            .map(move |std::ops::Range { start, end }| {
+                // offsets come from untrusted blocks or text: do not overflow
+                start.saturating_mul(multiplier)..end.saturating_mul(multiplier)
+            })
     }
 }
 
